@@ -77,19 +77,32 @@ class Stack(object):
         self.pred = chi.PredictiveModel(self.m, self.errs)
         self.pp = chi.PopulationPredictiveModel(self.pred, self.pop)
         self.other_pred = chi.PredictiveModel(self.m, self.errs)
-        names = self.pred.get_parameter_names()
+        names = list(self.pred.get_parameter_names())
+        # the data set may call the parameters differently (param_map); the
+        # names it uses may even be names of OTHER model parameters
+        pmk = r['posterior'].get('param_map')
+        kw = {}
+        if pmk and len(names) >= 2:
+            a_, b_ = names[0], names[1]
+            if pmk == 'swap':
+                kw['param_map'] = {a_: b_, b_: a_}
+                names[0], names[1] = b_, a_
+            else:
+                kw['param_map'] = {a_: b_, b_: 'renamed'}
+                names[0], names[1] = b_, 'renamed'
+        self.ds_names = names
         self.ds1 = posterior_dataset(names, r['posterior'])
         self.ds2 = posterior_dataset(
             names, dict(r['posterior'], seed=r['posterior']['seed'] + 7),
             scale=1.7)
-        self.post = chi.PosteriorPredictiveModel(self.pred, self.ds1)
+        self.post = chi.PosteriorPredictiveModel(self.pred, self.ds1, **kw)
         self.post2 = chi.PosteriorPredictiveModel(
-            chi.PredictiveModel(self.m, self.errs), self.ds2)
+            chi.PredictiveModel(self.m, self.errs), self.ds2, **kw)
         self.ds3 = posterior_dataset(
             names, dict(r['posterior'], seed=r['posterior']['seed'] + 13),
             scale=0.6)
         self.post3 = chi.PosteriorPredictiveModel(
-            chi.PredictiveModel(self.m, self.errs), self.ds3)
+            chi.PredictiveModel(self.m, self.errs), self.ds3, **kw)
         w = list(r.get('weights', [0.5, 0.5]))
         models = [self.post, self.post2, self.post3][:len(w)]
         self.pam = chi.PAMPredictiveModel(models, w)
@@ -517,7 +530,7 @@ def run(scenario, world):
                 # joint-draw clause
                 if kind == 'post':
                     ind = args.get('individual') or 'a'
-                    names = main.pred.get_parameter_names()
+                    names = main.ds_names
                     for _, vec in ic.calls:
                         if not joint_row(main.ds1, names, ind, vec):
                             raise Violation(
@@ -533,7 +546,7 @@ def run(scenario, world):
                     world.probe('posterior_rows_verified', len(ic.calls))
                 if kind == 'pam':
                     ind = args.get('individual') or 'a'
-                    names = main.pred.get_parameter_names()
+                    names = main.ds_names
                     w = scenario['recipes'].get('weights', [0.5, 0.5])
                     gw = call(lambda: np.asarray(target.get_weights()))
                     want_w = np.asarray(w, dtype=float) / np.sum(w)
@@ -644,7 +657,9 @@ def generate(rng, index, tier):
                              'chains': rng.choice([1, 2, 2, 3]),
                              'draws': rng.randint(2, 4), 'ids': ['a', 'b'],
                              'pooled': sorted(rng.sample(
-                                 range(4), rng.choice([0, 0, 1, 2])))},
+                                 range(4), rng.choice([0, 0, 1, 2]))),
+                             'param_map': rng.choice(
+                                 [None, None, None, 'swap', 'chain'])},
                'outputs_arg': rng.random() < 0.5,
                'weights': rng.choice([[0.5, 0.5], [0.3, 0.7], [1.0, 0.0],
                                       [0.0, 2.0], [0.3, 0.3, 0.4],
